@@ -435,3 +435,39 @@ func signDigestDet(k *ecdsa.PrivateKey, z []byte, tag string, shape string) []by
 		return out
 	}
 }
+
+// StripCrlNumber re-issues a CRL without its cRLNumber extension (x509.CreateRevocationList always writes one; RFC 5280 demands it of
+// conforming issuers, but a relying party meets what it meets): same issuer, entries, dates; signed again by key.
+func StripCrlNumber(der []byte, key *ecdsa.PrivateKey) []byte {
+	var cl pkix.CertificateList
+	if rest, err := asn1.Unmarshal(der, &cl); err != nil || len(rest) != 0 {
+		panic(fmt.Sprintf("StripCrlNumber: %v", err))
+	}
+	tbs := cl.TBSCertList
+	var keep []pkix.Extension
+	for _, e := range tbs.Extensions {
+		if !e.Id.Equal(asn1.ObjectIdentifier{2, 5, 29, 20}) {
+			keep = append(keep, e)
+		}
+	}
+	tbs.Extensions = keep
+	tbs.Raw = nil
+	raw, err := asn1.Marshal(tbs)
+	if err != nil {
+		panic(err)
+	}
+	digest := sha256.Sum256(raw)
+	sig, err := detSigner{key}.Sign(nil, digest[:], nil)
+	if err != nil {
+		panic(err)
+	}
+	tbs.Raw = raw
+	out, err := asn1.Marshal(pkix.CertificateList{TBSCertList: tbs, SignatureAlgorithm: cl.SignatureAlgorithm, SignatureValue: asn1.BitString{Bytes: sig, BitLength: 8 * len(sig)}})
+	if err != nil {
+		panic(err)
+	}
+	if _, err := x509.ParseRevocationList(out); err != nil {
+		panic(fmt.Sprintf("StripCrlNumber produced an unparsable CRL: %v", err))
+	}
+	return out
+}
